@@ -107,6 +107,13 @@ CLAIMS = {
         "note": "Splittings are enumerated by forking. Trusted: virtual file system model. Outside: A2ML includes, directories, separators, self-including files.",
         "technique": "bounded symbolic execution of MIR (fork per splitting), native replay against real files in a temp directory",
     },
+    "C06": {
+        "engine": "E2-mirsym",
+        "text": "The whole loader is executed by the symbolic executor on one document per fault kind, once strict and once non-strict: strict Ok implies non-strict Ok with equal models; strict fails exactly when non-strict reports a problem that is not a deprecation notice (or fails too); every diagnostic carries the line of the faulty token. The skipping routine is additionally run with a symbolic strictness flag.",
+        "design_ref": "DESIGN.md section 4 C06",
+        "note": "Fault kinds are enumerated by forking (bounded shape); only the call sites reached by the template are covered. Trusted: E2 std models. Outside: IF_DATA interplay, the error_or_log sites of element parsers not in the template.",
+        "technique": "bounded symbolic execution of MIR (fork per fault kind, symbolic strictness in the helper harnesses), native replay",
+    },
 }
 
 _PENDING = "check not built yet in this revision of /verif (see DESIGN.md section 7 for the order of work)"
